@@ -4,6 +4,10 @@
 //        -> Topology::setBox(m, type);  prints getBoxType(), BoxVolume(), getBox()
 //   newtop -> a fresh Topology (two beads);  setbox <type> <9 reals> -> setBox on the CURRENT
 //        Topology (histories of setBox calls on one object);  box = newtop + setbox
+//   cleanup -> Topology::Cleanup() (drops beads, boundary becomes open); the two beads are re-created
+//   copies p1 p2 -> the same probe answered by (1) the Topology, (2) a BoundaryCondition::Clone()
+//        of its boundary, (3) a second Topology filled by CopyTopologyData: type, volume, stored
+//        matrix, shortest height (periodic types) and BCShortestConnection(p1,p2)
 //   short -> Topology::ShortestBoxSize()
 //   pair x1 y1 z1 x2 y2 z2
 //        -> f = BCShortestConnection(p1,p2), b = BCShortestConnection(p2,p1),
@@ -87,6 +91,40 @@ int main() {
         for (int i = 0; i < 3; ++i)
           for (int j = 0; j < 3; ++j) std::cout << " " << g(i, j);
         std::cout << std::endl;
+      } else if (cmd == "cleanup") {
+        top->Cleanup();
+        top->RegisterBeadType("A");
+        b0 = top->CreateBead(Bead::spherical, "a0", "A", 0, 1.0, 0.0);
+        b1 = top->CreateBead(Bead::spherical, "a1", "A", 0, 1.0, 0.0);
+        std::cout << "type " << tname(top->getBoxType()) << std::endl;
+      } else if (cmd == "copies") {
+        Eigen::Vector3d p1, p2;
+        int withbox = 1;
+        in >> p1[0] >> p1[1] >> p1[2] >> p2[0] >> p2[1] >> p2[2] >> withbox;
+        auto show = [&](const char *who, BoundaryCondition::eBoxtype t, double vol, const Eigen::Matrix3d &g,
+                        double sh, const Eigen::Vector3d &f) {
+          std::cout << who << " " << tname(t);
+          if (withbox) {
+            std::cout << " " << vol;
+            for (int i = 0; i < 3; ++i)
+              for (int j = 0; j < 3; ++j) std::cout << " " << g(i, j);
+            std::cout << " " << sh;
+          }
+          std::cout << " " << f[0] << " " << f[1] << " " << f[2] << std::endl;
+        };
+        bool per = top->getBoxType() != BoundaryCondition::typeOpen;
+        show("orig", top->getBoxType(), top->BoxVolume(), top->getBox(), per ? top->ShortestBoxSize() : 0.0,
+             top->BCShortestConnection(p1, p2));
+        std::unique_ptr<BoundaryCondition> c = top->getBoundary().Clone();
+        bool cper = c->getBoxType() != BoundaryCondition::typeOpen;
+        show("clone", c->getBoxType(), c->BoxVolume(), c->getBox(), cper ? c->getShortestBoxDimension() : 0.0,
+             c->BCShortestConnection(p1, p2));
+        Topology t2;
+        t2.CopyTopologyData(top.get());
+        bool tper = t2.getBoxType() != BoundaryCondition::typeOpen;
+        show("copy", t2.getBoxType(), t2.BoxVolume(), t2.getBox(), tper ? t2.ShortestBoxSize() : 0.0,
+             t2.BCShortestConnection(p1, p2));
+        std::cout << "copybeads " << t2.BeadCount() << std::endl;
       } else if (cmd == "short") {
         std::cout << "short " << top->ShortestBoxSize() << std::endl;
       } else if (cmd == "pair") {
